@@ -39,14 +39,14 @@ def run_op(tr, op, doc_tokens, extra=0):
         return "internal", e
 
 
-def setup_history(ctx, rnd, ids=None, random_share=0.0, nslices=4, wide=0.1):
+def setup_history(ctx, rnd, ids=None, random_share=0.0, nslices=4, wide=0.1, mark_p=0.25, budget=None):
     sch = pick_schema(rnd, random_share=random_share, ids=ids)
     if sch is None:
         ctx.count("schema_gen_failed")
         return None
     stepmon.register(sch)
-    g = gen.DocGen(sch, rnd, wide=wide)
-    d, p = g.doc()
+    g = gen.DocGen(sch, rnd, wide=wide, mark_p=mark_p)
+    d, p = g.doc(budget)
     others = other_docs(sch, rnd, 2)
     slices = gensteps.valid_slices(sch, rnd, [(d, p)] + others, per=nslices)
     return sch, g, d, p, slices
